@@ -19,6 +19,8 @@ SLOW_CLASSES = {"BayesianOptimizer", "TreeStructuredParzenEstimators", "ForestOp
 
 
 def pre_build(ctx):
+    import gen_units
+    gen_units.pre_build(ctx, "translate_search")
     """Regenerate generated/FacadeData.v from /repo's source before the Coq build."""
     ctx._facade_info = tf.translate()
 
@@ -100,6 +102,8 @@ def facade_behaviour(ctx):
 
 
 def run(ctx):
+    import gen_units
+    gen_units.g_unit(ctx, "translate_search")
     ut = ctx.unit("T:facade translator", "translator",
                   "ast translation of optimizer_search/*.py and the backend signatures into generated/FacadeData.v (fail-closed); "
                   "one case per public class; non-trivial = the class has algorithm-specific parameters")
